@@ -75,6 +75,20 @@ class RecQ:
         return f"RecQ({self.value!r}, {self.units!r})"
 
 
+PICKY_UNITS = ("deg", "m / s", "KM/(S**2)")
+
+
+class RecQPicky(RecQ):
+    """A quantity class that refuses some units, as a caller's class may.
+    The load may then fail; it may not come back with the bare value."""
+    __slots__ = ()
+
+    def __init__(self, value, units):
+        if str(units).strip() in PICKY_UNITS:
+            raise ValueError(f"this quantity class does not take {units!r}")
+        RecQ.__init__(self, value, units)
+
+
 def make_classes(pvl):
     col = pvl.collections
 
@@ -113,7 +127,7 @@ def build_parser(pvl, pairing, subs, classes, shared=None):
     if "real" in subs:
         dk["real_cls"] = subs["real"]
     if "quantity" in subs:
-        dk["quantity_cls"] = RecQ
+        dk["quantity_cls"] = RecQPicky if subs["quantity"] == "picky" else RecQ
     pk = {}
     if "module" in subs:
         pk["module_class"] = SubModule
@@ -184,7 +198,7 @@ def load_with(pvl, pairing, text, subs, classes, shared=None, route="loads(str)"
         if "real" in subs:
             dk["real_cls"] = subs["real"]
         if "quantity" in subs:
-            dk["quantity_cls"] = RecQ
+            dk["quantity_cls"] = RecQPicky if subs["quantity"] == "picky" else RecQ
         kw = {}
         if dk or pairing != "default":
             kw["decoder"] = D.OmniDecoder(**dk)
@@ -304,6 +318,11 @@ def case(rec, pvl, pairing, key, classes):
     subs = {n: True for n in on}
     if "real" in subs:
         subs["real"] = rng.choice((RecReal, decimal.Decimal))
+    picky_hit = False
+    if "quantity" in subs and rng.random() < 0.3:
+        subs["quantity"] = "picky"
+        picky_hit = any(t.kind == gt.UNITS and t.text.strip("<> \t\n\r\f\v") in PICKY_UNITS
+                        for t in doc.tokens)
     wit = {"pairing": pairing, "seed": key, "text": text[:1200],
            "substitutes": sorted(subs)}
     rec.case((pairing, key, tuple(sorted(subs))), bool(subs),
@@ -347,11 +366,22 @@ def case(rec, pvl, pairing, key, classes):
         rec.inconc("CPU budget exceeded " + key)
         return
     except Exception as e:
+        if picky_hit:
+            # the caller's quantity class refused a units expression that is
+            # in the text: failing is the honest outcome
+            rec.count("refusal_by_the_quantity_class_propagated")
+            return
         rec.violation(CHECK, pairing, "load-fails-only-with-substitutes",
                       {"exc": type(e).__name__,
                        "real": getattr(subs.get("real"), "__name__", None),
                        "quantity": "quantity" in subs, "route": route}, wit,
                       f"{type(e).__name__}: {e}"[:300])
+        return
+    if picky_hit:
+        rec.violation(CHECK, pairing, "quantity-class-refused-yet-load-returned",
+                      {"route": route}, wit,
+                      "the substitute quantity class raised ValueError for units "
+                      "that are in the text, and the load returned a module")
         return
     rec.count(f"loads_with_substitutes[{pairing}]")
     # the plain load must not show any substitute (it may have run second,
@@ -479,7 +509,8 @@ def shard(i, n, tier, seed, rec, hb):
 def finish_kwargs(rec, tier):
     req = [f"loads_with_substitutes[{p}]" for p in PAIRINGS]
     req += [f"route[{r}]" for r in set(ROUTES)]
-    req += ["cases_sharing_one_grammar_object"]
+    req += ["cases_sharing_one_grammar_object",
+            "refusal_by_the_quantity_class_propagated"]
     req += ["real_text_checks", "decimal_digit_checks", "seen[real][block]",
             "seen[real][sequence]", "seen[real][set]",
             "seen[real][quantity-magnitude]", "seen[quantity][sequence]",
